@@ -230,13 +230,19 @@ func genB32Dec(r *Rng, n int, w *bufio.Writer) {
 
 // n case lines = n/16 addresses, each split in 16 slices of position pairs
 func genB32Sub2(r *Rng, n int, w *bufio.Writer) {
-	const m = 16
-	for i := 0; i < n; i += m {
+	// thorough tier: every pair of positions (16 slices per address); quick tier (n <= 16): the 16 slices
+	// p mod 32 in 0..15 of one address, i.e. half of the first positions p, each with every second position q > p
+	m := 16
+	per := 16
+	if n <= 16 {
+		m = 32
+	}
+	for i := 0; i < n; i += per {
 		s, ok := genB32Valid(r, true)
 		if !ok {
 			continue
 		}
-		for k := 0; k < m && i+k < n; k++ {
+		for k := 0; k < per && i+k < n; k++ {
 			fmt.Fprintf(w, "b32sub2 %s %d %d\n", hx([]byte(s)), k, m)
 		}
 	}
@@ -363,6 +369,10 @@ func genB32Cb(r *Rng, n int, w *bufio.Writer) {
 			src := r.Bytes(k)
 			if conv, err := blech32.ConvertBits(src, 8, 5, true); err == nil {
 				data = conv
+				// ... possibly followed by extra all-zero groups (5..7 left-over zero bits must be refused)
+				for j := r.Intn(3); j > 0; j-- {
+					data = append(data, 0)
+				}
 			}
 		}
 		pad := 0
